@@ -199,12 +199,12 @@ DEPENDS = {
     'C06': ['C01'],
     'C07': ['C01'],
     'C09': ['C02', 'C03', 'C04'],
-    'C10': ['C02', 'C04'],
-    'C11': ['C03'],
+    'C10': ['C09'],
+    'C11': ['C09'],
     'C12': ['C03'],
     'C15': ['C01'],
     'C14': ['C06'],
-    'C16': ['C01'],
+    'C16': ['C01', 'C03'],
     'C18': ['C02', 'C09'],
-    'C19': ['C03', 'C06'],
+    'C19': ['C03', 'C06', 'C10'],
 }
